@@ -131,6 +131,8 @@ def run_forms(ctx, p):
     a0, k0 = setpos(args, kwargs, pos, np.array(ref_v))
     base_res = attempt(e, a0, k0, recv)
     forms = gen.FORMS if (is_base(e) and 'forms3' not in e['tags']) else ['list', 'tuple', 'array']
+    if ref_v.ndim == 1 and 0 < ref_v.size <= 12:
+        forms = list(forms) + ['ntuple']
     forms = list(forms) + [x for x in p.get('objforms', []) if (is_base(e) and 'forms3' not in e['tags']) or not x.startswith(('row', 'col'))]
     outcomes = {}
     for form in forms:
@@ -441,7 +443,49 @@ def run_keywords(ctx, p):
         ctx.nontrivial('keywords', e['name'], sp)
 
 
-RUNNERS = {'length2': run_length2, 'keywords': run_keywords, 'forms': run_forms, 'length': run_length, 'triple': run_triple, 'units': run_units, 'options': run_options, 'scalars': run_scalars}
+def flag_params(e):
+    """parameters of the entry's target whose default is a bool (on / off options: check, norm, twist, shortest, samebody ...)"""
+    import inspect
+    try:
+        sg = inspect.signature(cat.resolve(e['target']))
+    except (TypeError, ValueError):
+        return []
+    return [n for n, q in sg.parameters.items() if isinstance(q.default, bool) and n not in e['kwargs'] and n not in ('self',)
+            and q.kind in (q.POSITIONAL_OR_KEYWORD, q.KEYWORD_ONLY)]
+
+
+def run_flags(ctx, p):
+    """an on / off option is read for its truth value: True, 1 and numpy.True_ (what any NumPy comparison returns) switch it on alike,
+    False, 0 and numpy.False_ switch it off alike"""
+    e = entry_of(p)
+    if 'random' in e['tags'] or 'plot' in e['tags']:
+        return
+    name = p['flag']
+    for truth in (True, False):
+        kw = dict(p['kwargs'])
+        kw[name] = truth
+        base_res = attempt(e, list(p['args']), kw, recv_of(p))
+        for form, g in (('int', int(truth)), ('np.bool_', np.bool_(truth))):
+            kw2 = dict(p['kwargs'])
+            kw2[name] = g
+            o = attempt(e, list(p['args']), kw2, recv_of(p))
+            sig = dict(api=e['name'], flag=name, form=form, on=truth)
+            if o[0] != base_res[0]:
+                ctx.bad('options', dict(sig, kind='one_form_raises' if o[0] == 'exc' else 'only_this_form_accepted',
+                                        exc=type(o[1]).__name__ if o[0] == 'exc' else type(base_res[1]).__name__),
+                        '%s: option %s=%r -> %s, %s=%r -> %s' % (e['name'], name, g, core.short(o[1], 200), name, truth, core.short(base_res[1], 200)))
+                continue
+            if o[0] == 'exc':
+                ctx.ood('options')
+                continue
+            ctx.judge('options', same(o[1], base_res[1]), dict(sig, kind='result_differs'),
+                      lambda: '%s: option %s=%r gives %s, %s=%r gives %s' % (
+                          e['name'], name, g, core.short(o[1].data if isinstance(getattr(o[1], 'data', None), list) else o[1], 300), name, truth,
+                          core.short(getattr(base_res[1], 'data', base_res[1]), 300)))
+            ctx.cell('flags', e['name'], name, form, truth)
+
+
+RUNNERS = {'flags': run_flags, 'length2': run_length2, 'keywords': run_keywords, 'forms': run_forms, 'length': run_length, 'triple': run_triple, 'units': run_units, 'options': run_options, 'scalars': run_scalars}
 
 
 def REACH():
@@ -458,6 +502,14 @@ def run(ctx):
         ctx.harness_errors.append('catalogue out of date: %s exported by spatialmath.base but not catalogued' % un)
     reps = 8 if ctx.tier == 'quick' else 300
     i = 0
+    for ei, e in enumerate(ENTRIES):
+        for fl in flag_params(e):
+            i += 1
+            if not ctx.mine(i):
+                continue
+            for _ in range(ctx.scale(2, 40)):
+                args, kwargs, recv = build_args(rng, e)
+                drive(RUNNERS, ctx, 'flags', dict(entry=ei, args=args, kwargs=kwargs, recv=recv_desc(recv), flag=fl))
     for ei, e in enumerate(ENTRIES):
         pos, kpos = vec_positions(e)
         for _ in range(reps):
